@@ -1,6 +1,7 @@
 import TextxVerif.Proofs.ObjBuild
 import TextxVerif.Proofs.ObjChildren
 import TextxVerif.Proofs.ObjClassTbl
+import TextxVerif.Proofs.ObjRefs
 /-!
 # C05 — containment links and the model navigation API are consistent
 
@@ -174,6 +175,91 @@ theorem C05_ancestors_contained {h : Heap} (T : TreeHeap h) :
     (∀ p c, c ∈ contIds h p → anc h c = p :: anc h p) ∧ (∀ r, parentOf h r = none → anc h r = []) :=
   ⟨fun p c hc => anc_of_parent T.parent_lt (T.parent_of_cont p c hc), fun _ hr => anc_of_root T.parent_lt hr⟩
 
+/-! ## the abstract-rule branch of `process_node` (model.py 671-683) -/
+
+/-- **Which child of an abstract-rule node is the model object.**  `processNode` on an abstract-rule
+node with several children is stated here against the Python text, list comprehension by list
+comprehension: with `nonterminals = [n for n in node if type(n) is not Terminal]`,
+* the first of them whose rule is not a match rule is processed and is the result (match-rule
+  `NonTerminal`s in front of it are used only for parsing);
+* if all of them are match-rule nodes, the first one is processed (`process_node(nonterminals[0])`);
+* if there is none, the result is the joined text (a truthy string), the state is untouched. -/
+theorem C05_abstract_selection (tr : Heap → Nat → Bool) (mm : Nat → List MetaAttr) (k k2 : PT) (rest : List PT)
+    (s : St) :
+    (∀ n, ((k :: k2 :: rest).filter (fun n => !n.isTerm)).find? (fun n => !n.isMatchNT) = some n →
+      processNode tr mm (.nt .abs (k :: k2 :: rest)) s = processNode tr mm n s) ∧
+    (((k :: k2 :: rest).filter (fun n => !n.isTerm)).find? (fun n => !n.isMatchNT) = none →
+      ∀ n, ((k :: k2 :: rest).filter (fun n => !n.isTerm)).head? = some n →
+      processNode tr mm (.nt .abs (k :: k2 :: rest)) s = processNode tr mm n s) ∧
+    ((k :: k2 :: rest).filter (fun n => !n.isTerm) = [] →
+      processNode tr mm (.nt .abs (k :: k2 :: rest)) s = some (.prim true, s)) := by
+  have hunf : processNode tr mm (.nt .abs (k :: k2 :: rest)) s
+      = processFirstNT tr mm (abstractFallback (k :: k2 :: rest)) (k :: k2 :: rest) s := by
+    simp only [processNode]
+  refine ⟨?_, ?_, ?_⟩
+  · intro n hn
+    rw [hunf]
+    exact processFirstNT_some tr mm _ s _ n hn
+  · intro hnone n hn
+    rw [hunf, processFirstNT_none tr mm _ s _ hnone]
+    have hall : ∀ n ∈ (k :: k2 :: rest).filter (fun n => !n.isTerm), n.isMatchNT = true := by
+      intro x hx
+      have := List.find?_eq_none.mp hnone x hx
+      simpa using this
+    exact ((abstractFallback_spec tr mm s _ hall).1 n hn).symm
+  · intro hnil
+    have hnone : ((k :: k2 :: rest).filter (fun n => !n.isTerm)).find? (fun n => !n.isMatchNT) = none := by
+      rw [hnil]; rfl
+    have hall : ∀ n ∈ (k :: k2 :: rest).filter (fun n => !n.isTerm), n.isMatchNT = true := by
+      intro x hx; rw [hnil] at hx; cases hx
+    rw [hunf, processFirstNT_none tr mm _ s _ hnone, (abstractFallback_spec tr mm s _ hall).2 hnil]
+
+/-- The pinned code took the first `NonTerminal` child whatever its rule (`next(n for n in node if
+type(n) is not Terminal)`).  For `Wrapped: Mark Item | …; Mark: '<' '>';` the node of `Wrapped`
+has the children [node of the match rule `Mark`, node of the common rule `Item`]: the pinned
+selection picks the match-rule node — no object — where the repaired code (and `processNode`)
+creates the `Item` object. -/
+theorem C05_abstract_pinned_false :
+    (([PT.nt (.mat true) [.term 0 1 false true, .term 1 1 false true],
+      PT.nt (.obj 1) [.nt (.asgn 2 .plain) [.term 3 1 false true]]].find? (fun n => !n.isTerm)).map PT.isMatchNT
+        = some true) ∧
+    (processNode (fun _ _ => true) (fun _ => [⟨2, false, true⟩])
+        (.nt .abs [.nt (.mat true) [.term 0 1 false true, .term 1 1 false true],
+          .nt (.obj 1) [.nt (.asgn 2 .plain) [.term 3 1 false true]]]) St.empty).map (·.1) = some (.obj 0) := by
+  decide
+
+/-! ## the navigation API on the finished model: after reference resolution -/
+
+/-- **Reference resolution does not disturb the containment tree.**  `h'`: the heap of a built model
+after any number of stores into non-containment attributes (`RefUpdates`: what the reference
+resolver does — single references, lists of references, unresolved ones, in any order, any values,
+also references pointing back up the tree).  Then `h'` is still a containment tree with the same
+parent links and containment lists, the root still has no parent, `get_children` returns what it
+returned before resolution and exactly the contained objects satisfying the selector (in the sense
+of `h'`), `get_model` is the root for every contained object, `get_parent_of_type` is unchanged. -/
+theorem C05_nav_after_refs (tr : Heap → Nat → Bool) (mm : Nat → List MetaAttr) (root : PT) (r : Nat) (s : St)
+    (h : build tr mm root = some (.obj r, s)) (h' : Heap) (hu : RefUpdates s.heap h') :
+    TreeHeap h' ∧ (∀ x, parentOf h' x = parentOf s.heap x) ∧ (∀ x, contIds h' x = contIds s.heap x) ∧
+    parentOf h' r = none ∧
+    (∀ sel fol cf fuel rt, getChildren h' sel fol cf fuel rt = getChildren s.heap sel fol cf fuel rt) ∧
+    (∀ sel fol cf fuel rt x, h'.length ≤ rt + fuel →
+      (x ∈ getChildren h' sel fol cf fuel rt ↔ Reach h' fol rt x ∧ sel x = true)) ∧
+    (∀ x fuel, Reach h' (fun _ => true) r x → x < fuel → getModel h' fuel x = some r) ∧
+    (∀ typ fuel x, getParentOfType h' typ fuel x = getParentOfType s.heap typ fuel x) := by
+  have e := hu.same
+  have T := (C05_build_tree tr mm root _ s h).1
+  have T' := e.tree T
+  have hr : parentOf h' r = none := by rw [e.parent]; exact (C05_parent tr mm root r s h).1
+  refine ⟨T', e.parent, e.cont, hr, ?_, ?_, ?_, ?_⟩
+  · intro sel fol cf fuel rt
+    exact C05_refs_inert e.ex e.cont sel fol cf fuel rt
+  · intro sel fol cf fuel rt x hf
+    exact C05_children_mem T' sel fol cf fuel rt hf x
+  · intro x fuel hx hf
+    exact getModel_of_reach T' hr hx fuel hf
+  · intro typ fuel x
+    exact getParentOfType_congr e.parent e.cls typ fuel x
+
 /-! ## histories of meta-models: class objects that serve several grammars -/
 
 /-- **Only the meta-model that initialised the model's classes last counts.**  `pre`: any
@@ -322,5 +408,27 @@ def exEmptyFalsy : Heap → Nat → Bool := fun h x =>
 example : build exTruthy exMM exTwice = none := by decide
 example : (build exEmptyFalsy exMM exTwice).map (fun r => (contIds r.2.heap 0, r.2.heap.map (·.parent)))
     = some ([2], [none, some 0, some 0]) := by decide
+
+/-! reference resolution on the example: the reference attribute 9 of the root is set to the root
+itself (a reference back up the tree), then to a list — `RefUpdates` is inhabited beyond `refl` -/
+theorem exRefAttr : IsRefAttr exHeap 0 9 := by
+  intro o m v ho hf
+  have h0 : exHeap.get 0 = some ⟨0, none, 0, 9, [(⟨0, true, true⟩, .many [.obj 1, .obj 3]), (⟨1, false, true⟩, .one (.obj 4)),
+      (⟨9, false, false⟩, .one .none)]⟩ := by decide
+  rw [h0] at ho
+  cases ho
+  simp [findAttr] at hf
+  rw [← hf.1]
+
+example : RefUpdates exHeap (exHeap.updAttr 0 9 (fun _ => .one (.obj 0))) :=
+  .step 0 9 _ (.refl _) exRefAttr
+example : getChildren (exHeap.updAttr 0 9 (fun _ => .one (.obj 0))) (fun _ => true) (fun _ => true) false 5 0
+    = [0, 1, 2, 3, 4] := by decide
+
+/-! an abstract-rule node whose first `NonTerminal` child comes from a match rule: the object of the
+common rule behind it is the result (`C05_abstract_selection`, first clause) -/
+example : (build exTruthy exMM (.nt (.obj 0) [.term 0 1 false true,
+      .nt (.asgn 1 .plain) [.nt .abs [.nt (.mat true) [.term 2 1 false true, .term 3 1 false true], exKid 4 []]]])).map
+      (fun r => (r.1, contIds r.2.heap 0)) = some (.obj 0, [1]) := by decide
 
 end Obj
